@@ -77,6 +77,25 @@ def run(tier, seed, replay):
         code, out, err, wall = lib.run_bin(binp, ["-in", os.path.join(d, "runs.json"), "-events", os.path.join(d, "events.ndjson"),
                                                   "-results", os.path.join(d, "results.ndjson"), "-seed", str(seed)], timeout=3000)
         if code != 0:
+            # a Go runtime panic raised inside the map's own code (first goroutine of the dump has a lazymap.go frame, e.g.
+            # "sync: WaitGroup is reused before previous Wait has returned") is behaviour of the map, not of the harness
+            pan = err.find("panic: ")
+            first = err[pan:].split("\n\ngoroutine ")[0:2] if pan >= 0 else []
+            if pan >= 0 and any("/d2/lazymap/lazymap.go" in b for b in first) and "main.go" not in first[0]:
+                last = []
+                if os.path.exists(os.path.join(d, "events.ndjson")):
+                    for ln in open(os.path.join(d, "events.ndjson"), errors="replace"):
+                        try:                      # the file ends in a torn line when the process died
+                            e = json.loads(ln)
+                        except ValueError:
+                            continue
+                        if e.get("ev") == "reset":
+                            last.append(e)
+                rid = last[-1]["run"] if last else "?"
+                byid = {r_["id"]: r_ for r_ in runs}
+                verdict.add("C18/panic-inside-map/" + gen, "the real lazy map panicked during run %s: %s" % (rid, err[pan:pan + 300].replace("\n", " | ")),
+                            dict(gen=gen, run=rid, prog=byid.get(rid, {}).get("prog"), sched=byid.get(rid, {}).get("sched", []), panic=err[pan:pan + 1500]))
+                continue
             raise lib.Broken("lazymap controller failed (%s): %s" % (gen, err[-2000:]))
         results = lib.read_ndjson(os.path.join(d, "results.ndjson"))
         events = lib.read_ndjson(os.path.join(d, "events.ndjson"))
